@@ -51,7 +51,7 @@ function render0(t, st) {
         "`" +
         t.parts
           .map((p) => {
-            if (typeof p === "string") return p.replace(/[`\\$]/g, (c) => "\\" + c);
+            if (typeof p === "string") return p.replace(/[`\\$]/g, (c) => "\\" + c).replace(/\r/g, "\\r"); // a raw CR inside back-ticks would be read as LF
             if (Array.isArray(p.p)) return "${" + p.p.map((x) => JSON.stringify(x)).join(" | ") + "}";
             return "${" + p.p + "}";
           })
@@ -314,6 +314,12 @@ export function f4() {
   out.push(Tpl(H("number"), "px"), Tpl("#", H("string")), Tpl(H("string"), "@", H("string"), ".com"));
   // constant text that needs escaping inside back-ticks (when printed back as TypeScript) or inside a regular expression
   out.push(Tpl("a`b"), Tpl("a${b"), Tpl("$", H("number")), Tpl("a`", H("string"), "`z"), Tpl("}{", H("boolean")), Tpl("a\nb"), Tpl("tab\t", H("number")), Tpl("a\\", H("string")), Tpl(H("number"), "${x}"), Tpl("q\"q", H("string")));
+  // every character that is special in a regular expression, in a JavaScript regex literal or in a string, as
+  // constant text next to a hole (a template with a hole is compiled to a regular expression)
+  for (const c of ["/", "(", ")", "[", "]", "{", "}", "|", "^", "$", "*", "+", "?", ".", "\\", "\n", "\r", "\u2028", "'", '"', "-", "//", "/*", "\\/", "\\d"]) {
+    out.push(Tpl(c, H("string")));
+    out.push(Tpl(H("number"), c, "x"));
+  }
   const sf = ["f1", "f2", "f3"];
   for (const a of sf) out.push(FmtS(a));
   for (const a of sf) for (const b of sf) if (a !== b) out.push(FmtS(a, b));
@@ -475,6 +481,35 @@ export function f3() {
     [["A", Ref("MD1")], ["B", Ref("MD2")], ["C", Ref("DX1")], ["D", Ref("DX2")], ["E", Ref("DX3")], ["F", ArrT(Ref("DX1"))], ["G", Ref("DS1")], ["H", Ref("DS2")], ["I", Ref("DS3")]],
     "discriminated unions with several candidate discriminators / index signatures",
   );
+  // preconditions of discriminator dispatch: every multiset of 2 and 3 object members whose shared key `t` is, per
+  // member, a required literal, an optional literal, an optional literal union, a required wide type, or absent
+  {
+    const tOpts = [
+      ["ra", () => Prop("t", L("a"))],
+      ["rb", () => Prop("t", L("b"))],
+      ["rc", () => Prop("t", L("c"))],
+      ["oa", () => Prop("t", L("a"), true)],
+      ["oab", () => Prop("t", U(L("a"), L("b")), true)],
+      ["rs", () => Prop("t", P("string"))],
+      ["no", () => null],
+    ];
+    const other = [Prop("x", P("number")), Prop("y", P("string")), Prop("z", P("boolean"))];
+    const decls = [];
+    const parsers = [];
+    let n = 0;
+    const emit = (idx) => {
+      const members = idx.map((i, pos) => ObjT([tOpts[i][1](), other[pos]].filter(Boolean)));
+      decls.push(Alias(`DP${n}`, U(...members)));
+      parsers.push([`P${n}`, Ref(`DP${n}`)]);
+      n++;
+    };
+    for (let i = 0; i < tOpts.length; i++)
+      for (let j = i; j < tOpts.length; j++) {
+        emit([i, j]);
+        for (let k = j; k < tOpts.length; k++) emit([i, j, k]);
+      }
+    for (let c = 0; c < decls.length; c += 28) add(decls.slice(c, c + 28), parsers.slice(c, c + 28), "discriminator preconditions (required / optional / wide / absent shared key)");
+  }
   add(
     [
       Alias("S1", ObjT([Prop("kind", L("a")), Prop("sub", L("p")), Prop("x", P("number"))])),
